@@ -42,6 +42,11 @@ def prod_kind(p):
     if p.name == 'expr':
         if len(r) == 3 and r[0] == 'expr' and r[2] == 'expr' and tok_class(r[1]) is not None:
             return ('bin', r[1], tok_class(r[1]))
+        if len(r) == 3 and r[0] == 'expr' and r[2] != 'expr' and tok_class(r[1]) is not None and r[1] not in ('IN', 'NOT_IN'):
+            # the right operand is written as a fixed word (`a > LAST`): the same operator, complete as soon as the word is read
+            return ('bin-word', r[1], tok_class(r[1]))
+        if r == ('expr', 'NOT', 'expr'):
+            return ('bin', 'NOT', 3)        # postfix-style predicate `a NOT NULL` (= IS NOT NULL): NOT in infix position is a predicate operator
         if r == ('expr', 'NOT', 'IN', 'expr'):
             return ('bin', 'NOT IN', 3)
         if r == ('expr', 'BETWEEN', 'expr', 'AND', 'expr'):
@@ -60,7 +65,7 @@ def infix_classes(g):
     out = {}
     for p in g.productions[1:]:
         k = prod_kind(p)
-        if k and k[0] in ('bin', 'between') and p.rhs[0] == 'expr':
+        if k and k[0] in ('bin', 'bin-word', 'between') and p.rhs[0] == 'expr':
             out.setdefault(p.rhs[1], set()).add(k[2])
     return out
 
@@ -80,9 +85,9 @@ def expected(cp, cb):
 def witness(g, p, k, b, exp):
     lex = g.lexer
     sp = lambda t: spelling(lex, t) or t
-    if k[0] == 'bin':
+    if k[0] in ('bin', 'bin-word'):
         ops = ' '.join(sp(t) for t in p.rhs[1:-1])
-        left = f'a {ops} b'
+        left = f'a {ops} b' if k[0] == 'bin' else f'a {ops} {sp(p.rhs[-1]).lower()}'
     elif k[0] == 'between':
         left = f'a {sp("BETWEEN")} b {sp("AND")} c'
     else:
@@ -108,7 +113,7 @@ def check_operator_actions(ctx, g, d):
     ast_files = tuple(sorted(f for f in ctx.src.py_files('mindsdb_sql/parser') if '/ast/' in f))
     for p in g.productions[1:]:
         k = prod_kind(p)
-        if not k or p.name != 'expr' or p.func is None:
+        if not k or p.name != 'expr' or p.func is None or k[0] == 'bin-word':
             continue
         opnd = [i for i, s_ in enumerate(p.rhs) if s_ == 'expr']
         optoks = [s_ for s_ in p.rhs if s_ != 'expr']
@@ -181,6 +186,8 @@ def check_dialect(ctx, d):
             for s in p.rhs:
                 if s in g.tokens and (tok_class(s) is not None):
                     used.add(s)
+            if k[0] in ('bin', 'bin-word') and p.rhs[1] in g.tokens:
+                used.add(p.rhs[1])          # the token in infix position is the one whose level decides the grouping (NOT of `a NOT NULL`)
     for tok in sorted(used):
         ctx.ob('C03.token-has-level', f'{d}:{tok}', tok in g.precmap,
                f'{d}: operator token {tok} is used by an operator production but has no entry in '
@@ -288,6 +295,8 @@ def check_dialect(ctx, d):
                     got = 'shift'
                 elif a[0] == REDUCE and a[1] == p.number:
                     got = 'reduce'
+                elif a[0] == REDUCE and exp == 'shift' and prod_kind(P[a[1]]) is None and len(P[a[1]].rhs) < len(p.rhs) and (a[1], len(P[a[1]].rhs)) in I:
+                    got = 'shift'       # the last word is first reduced to an operand of its own (`last` as a column name): the operator production stays open
                 else:
                     got = f'reduce by other production ({P[a[1]]})' if a[0] == REDUCE else a[0]
                 lab = f'{d}:{k[1]}/{b}'
